@@ -293,6 +293,35 @@ pub fn gen_worker(ctx: &mut Ctx, prop: &str) {
         ctx.absorb(r);
     }
     if prop == "C08" {
+        // The ownership matrix: violations in many control-flow shapes, each with a valid twin.
+        let cases = crate::ownership::all_cases();
+        ctx.count("matrix.cases_defined", cases.len() as u64);
+        let mut rng = Rng::derive(seed, &[808]);
+        let chosen = match tier {
+            Tier::Quick => crate::ownership::select(&cases, &mut rng, 480),
+            Tier::Thorough => (0..cases.len()).collect(),
+        };
+        let chunks: Vec<Vec<&crate::ownership::Case>> = chosen.chunks(chosen.len().div_ceil(16).max(1)).map(|c| c.iter().map(|i| &cases[*i]).collect()).collect();
+        let results: Vec<ShardResult> = chunks
+            .par_iter()
+            .enumerate()
+            .map(|(ci, chunk)| {
+                let mut acc = ShardResult::default();
+                match guarded(|| {
+                    let mut local = ShardResult::default();
+                    crate::ownership::run_cases(&mut local, chunk, ci as u64);
+                    local
+                }) {
+                    Ok(l) => acc.merge(l),
+                    Err((loc, msg)) => acc.harness_error(format!("harness panic in the ownership matrix: {loc}: {msg}")),
+                }
+                acc
+            })
+            .collect();
+        for r in results {
+            ctx.absorb(r);
+        }
+        ctx.sample(json!({"matrix_case": cases[chosen[0]].name, "violating_source": cases[chosen[0]].violating, "valid_twin": cases[chosen[0]].twin}));
         // Hook H2: the lowering validator after every optimization phase of every function.
         let counters = verif::counters();
         ctx.count("hook.phases_validated", counters.get("lowering.phase.applied").copied().unwrap_or(0));
@@ -319,6 +348,9 @@ pub fn gen_replay(prop: &str, case: &serde_json::Value) -> Result<Option<String>
         let c = comp::virtual_crate("test", text, &comp::latest_settings(), None);
         let (_, has_errors) = comp::diagnostics(&db, &[c]);
         return Ok((!has_errors).then(|| format!("injected {inj} accepted")));
+    }
+    if case.get("matrix").is_some() {
+        return crate::ownership::replay(case);
     }
     if case.get("event").is_some() {
         return Err("hook events are not replayable individually; rerun the check".into());
